@@ -2,7 +2,8 @@
    (argument 1) and, for send_join / invite, the received event (argument 2); print outcome,
    call log and returned object.  Also the specification oracles C15.prop.*. *)
 From Verif Require Import Lib.Bytes Json.Ast Json.Parse Json.Print
-     Fed.HandshakeCommon Fed.HandshakeJoin Fed.HandshakeInvite Fed.HandshakePerform Fed.HandshakeSpec.
+     Fed.HandshakeCommon Fed.HandshakeJoin Fed.HandshakeInvite Fed.HandshakePerform
+     Fed.HandshakePerformInvite Fed.HandshakeSpec.
 Open Scope N_scope.
 
 (* ---------- decoding helpers ---------- *)
@@ -278,6 +279,43 @@ Definition prop_perform_join (args : list bytes) : bytes :=
   | _ => bs "badargs"
   end.
 
+(* ---------- PerformInvite ---------- *)
+Definition dec_latest (j : json) : pi_latest :=
+  {| pl_room_exists := gb "room_exists" j; pl_depth := gz "depth" j; pl_state_ok := gb "state_ok" j;
+     pl_refs_ok := gb "refs_ok" j; pl_refs := strs (gl "refs" j); pl_prev := strs (gl "prev" j) |}.
+
+Definition dec_pi (j : json) : pi_input :=
+  {| pi_version := gs "version" j; pi_target_local := gb "target_local" j; pi_room := gs "room" j;
+     pi_invitee := gs "invitee" j; pi_inviter_domain := gs "inviter_domain" j;
+     pi_invitee_domain := gs "invitee_domain" j;
+     pi_given_state := gl "given_state" j;
+     pi_generated_state := gq (fun v => match v with JArr l => l | _ => [] end) "generated_state" j;
+     pi_set_unsigned_ok := gb "set_unsigned_ok" j;
+     pi_sender_id := match jget (bs "sender_id") j with
+                     | Some (JObj m) => QVal (gs "v" (JObj m))
+                     | Some (JStr _) => QErr
+                     | _ => QNil
+                     end;
+     pi_membership := gerr_str "member_q" j;
+     pi_needed := match jget (bs "needed") j with Some (JArr l) => Some (strs l) | _ => None end;
+     pi_latest_q := match jget (bs "latest") j with Some (JObj m) => Some (dec_latest (JObj m)) | _ => None end;
+     pi_build_ok := gb "build_ok" j; pi_provider_ok := gb "provider_ok" j;
+     pi_allowed_ok := gb "allowed_ok" j; pi_send_ok := gb "send_ok" j |}.
+
+Definition print_pi (r : pi_result) : bytes :=
+  join_bytes nl ([outcome_name (pir_out r); join_bytes semi (pir_log r)] ++
+    match pir_event r with
+    | Some (PIBuilt sk depth auth prev signers st) =>
+        [entry [bs "built"; sk; print_int depth; bs "auth=" ++ join_bytes comma auth;
+                bs "prev=" ++ join_bytes comma prev; bs "signers=" ++ join_bytes comma signers;
+                canon_print st]]
+    | Some PIRemote => [bs "remote_response"]
+    | None => []
+    end).
+
+Definition run_perform_invite (args : list bytes) : bytes :=
+  with_cfg args (fun j => print_pi (perform_invite (dec_pi j))).
+
 (* fields of an event text: [scenario; event id; event text] *)
 Definition run_fields (args : list bytes) : bytes :=
   match args with
@@ -292,6 +330,12 @@ Definition run_fields (args : list bytes) : bytes :=
   | _ => bs "badargs"
   end.
 
+Definition prop_perform_invite (args : list bytes) : bytes :=
+  match args with
+  | [_; cfg; obs] => with_cfg [cfg; cfg] (fun j => oracle (perform_invite_admissible (dec_pi j)) obs)
+  | _ => bs "badargs"
+  end.
+
 Definition ops_C15 : list (bytes * (list bytes -> bytes)) :=
   [ (bs "C15.make_join", run_make_join);
     (bs "C15.make_leave", run_make_leave);
@@ -300,6 +344,8 @@ Definition ops_C15 : list (bytes * (list bytes -> bytes)) :=
     (bs "C15.perform_join", run_perform_join);
     (bs "C15.restricted_join", run_restricted_join);
     (bs "C15.fields", run_fields);
+    (bs "C15.perform_invite", run_perform_invite);
+    (bs "C15.prop.perform_invite", prop_perform_invite);
     (bs "C15.prop.make_join", prop_make_join);
     (bs "C15.prop.make_leave", prop_make_leave);
     (bs "C15.prop.send_join", prop_send_join);
